@@ -424,7 +424,7 @@ def standard_flow(ctx, spec):
         reps = read_lines(ctx.path("oracle_rep.txt"))
         for j, i in enumerate(idx):
             rep = reps[j] if j < len(reps) else "<missing>"
-            if rep != "ok":
+            if rep != "ok" and not rep.startswith("ok "):
                 oracle_fail.append((i, cases[i], impl[i], rep))
     state["oracle_fail"] = oracle_fail
     state["oracle_checked"] = len(reqs)
